@@ -64,8 +64,8 @@ theorem decideCore_status_paused {u : Int} {st : Status} {i : Identity} {p : Int
     | false => rfl
     | true => exact absurd (h1.mpr (h2.mpr hb)) (by simp)
 
-theorem blockedB_filter (u : Int) (st : Status) (i : Identity) (p : Int) (now : Int) :
-    blockedB u (st.filter (fun e => !e.2.dead u now)) i p now = blockedB u st i p now := by
+theorem blockedB_filter (u : Int) (st : Status) (i : Identity) (p : Int) (now : Int) (k : Identity) :
+    blockedB u (st.filter (fun e => !(e.2.dead u now && e.1 != k))) i p now = blockedB u st i p now := by
   rw [Bool.eq_iff_iff, blockedB_iff, blockedB_iff]
   constructor
   · rintro ⟨j, r, hm, h⟩
@@ -88,13 +88,19 @@ theorem blockedB_congr {u : Int} {st st' : Status} {i : Identity} {p : Int} {t t
 
 theorem cleaned_empty_filter {u : Int} {st : Status} {i : Identity} {p : Int} {tg : Option Bool} {now now2 : Int}
     (h : (decideCore u st.peers i p true tg now now2).cleaned.isEmpty = true) :
-    st.filter (fun e => !e.2.dead u now) = st := by
+    st.filter (fun e => !(e.2.dead u now && e.1 != i)) = st := by
   simp only [decideCore, if_true, List.isEmpty_iff, List.map_eq_nil_iff, deadPeers, Status.peers,
     List.filter_eq_nil_iff, List.mem_map] at h
   apply List.filter_eq_self.mpr
   intro e he
-  have := h (e.2.toPeer e.1) ⟨e, he, rfl⟩
-  simpa [toPeer_isDead] using this
+  have h1 := h (e.2.toPeer e.1) ⟨e, he, rfl⟩
+  rw [toPeer_isDead] at h1
+  cases hd : e.2.dead u now with
+  | false => simp
+  | true =>
+    rw [hd] at h1
+    simp only [Rec.toPeer, Bool.true_and, bne_iff_ne, ne_eq, Decidable.not_not] at h1
+    simp [h1]
 
 @[simp] theorem updOp_same (ops : Identity → Option Op) (i : Identity) (o : Op) : updOp ops i o i = some o := by
   simp [updOp]
@@ -119,7 +125,7 @@ def willTouch (u : Int) (s : State) (k : Identity) (o : Op) : Bool :=
 /-- what a successful `deliver k` does, spelled out. -/
 theorem deliver_spec {u : Int} {s s1 : State} {k : Identity} (h : step u s (.deliver k) = some s1) :
     ∃ o, s.ops k = some o ∧ o.alive = true ∧ s1.now = s.now ∧
-      s1.status = s.status.filter (fun e => !e.2.dead u s.now) ∧
+      s1.status = s.status.filter (fun e => !(e.2.dead u s.now && e.1 != k)) ∧
       s.ver ≤ s1.ver ∧ (s1.ver = s.ver → s1.status = s.status) ∧
       s1.ops = updOp s.ops k { o with paused := blockedB u s.status k o.prio s.now, seen := some (s.ver, s.now),
                                       sleeping := willTouch u s k o } := by
@@ -381,7 +387,7 @@ theorem run_delivers {u : Int} : ∀ (ls : List Label) (s s' : State),
       obtain ⟨o, ho, hoa, hnow1, hst1, _, _, hops1⟩ := deliver_spec h1
       obtain ⟨hnow, hst, hops, hp⟩ := ih s1 s' (fun l hl => hall l (List.mem_cons_of_mem _ hl)) h
       have hb : ∀ i p, blockedB u s1.status i p s1.now = blockedB u s.status i p s.now := by
-        intro i p; rw [hst1, hnow1]; exact blockedB_filter u s.status i p s.now
+        intro i p; rw [hst1, hnow1]; exact blockedB_filter u s.status i p s.now k
       have hstat : ∀ j r, r.dead u s.now = false → ((j, r) ∈ s1.status ↔ (j, r) ∈ s.status) := by
         intro j r hd
         rw [hst1, List.mem_filter]
